@@ -14,7 +14,7 @@
                            upplain = the upstream received a plaintext connection instead *)
 EXTENDS TLSSelect, VTrace
 
-VARIABLE hist    \* [last: field of the last update since mgr ("-" = none), path, prev: the context lists in force before it]
+VARIABLE hist    \* [last: field of the last update since mgr ("-" = none), path, prev: the listeners [ctxs, insp] in force before it]
 tvars == <<vars, l, hist>>
 NoHist == [last |-> "-", path |-> "-", prev |-> {}]
 
@@ -41,17 +41,18 @@ TMgr == /\ IsEvent("mgr")
 
 (* the policy in force is the last pushed one: from here on handshakes are judged by the updated list *)
 TUpd == /\ IsEvent("upd")
-        /\ Ev.pos \in 1..Len(cs.ctxs)
-        /\ cs' = [cs EXCEPT !.ctxs = ApplyUpd(@, UpdOf(Ev))]
-        /\ hist' = [last |-> Ev.field, path |-> Ev.path, prev |-> hist.prev \cup {cs.ctxs}]
+        /\ Ev.pos \in 0..Len(cs.ctxs)
+        /\ LET nl == ApplyUpd(Listener(cs), UpdOf(Ev)) IN cs' = [cs EXCEPT !.ctxs = nl.ctxs, !.insp = nl.insp]
+        /\ hist' = [last |-> Ev.field, path |-> Ev.path, prev |-> hist.prev \cup {Listener(cs)}]
         /\ UNCHANGED <<live, todo, pc, i, dflt, afirst, chosen, served, result>>
 
-(* a plaintext client *)
+(* a plaintext client; after an update the failing class names the updated field and the path it took *)
+KP(kind) == IF hist.last = "-" THEN kind ELSE "update:" \o hist.last \o ":" \o hist.path \o ":" \o kind
 PlainChecks(e) ==
   /\ Expect(e.plain => PlainAllowed(cs.insp),
-            IF ReadyIdx(cs.ctxs) = {} THEN "inspector:plaintext-served-without-inspector:no-ready-context"
-                                      ELSE "inspector:plaintext-served-without-inspector")
-  /\ Expect(PlainAllowed(cs.insp) => e.plain, "inspector:plaintext-refused-with-inspector")
+            KP(IF ReadyIdx(cs.ctxs) = {} THEN "inspector:plaintext-served-without-inspector:no-ready-context"
+                                        ELSE "inspector:plaintext-served-without-inspector"))
+  /\ Expect(PlainAllowed(cs.insp) => e.plain, KP("inspector:plaintext-refused-with-inspector"))
   /\ Expect(~e.ok /\ e.cert = 0, "inspector:tls-result-for-plaintext-client")
 
 (* how the context that answered relates to the hello: names the failing class in the signature *)
@@ -85,7 +86,7 @@ AuthGood(cl, e) ==
    a configuration in force BEFORE the update prescribes, the update did not take effect *)
 K(kind, e) == IF hist.last = "-" THEN kind
               ELSE "update:" \o hist.last \o ":" \o hist.path \o ":" \o
-                   (IF \E pl \in hist.prev : SelGood(pl, e) /\ AuthGood(pl, e) THEN "stale-context-in-force" ELSE kind)
+                   (IF \E pl \in hist.prev : SelGood(pl.ctxs, e) /\ AuthGood(pl.ctxs, e) THEN "stale-context-in-force" ELSE kind)
 
 TlsChecks(e) ==
   LET h == HelloOf(e)
